@@ -58,6 +58,7 @@ def run(ctx: Ctx) -> None:
     rule_find_lc_binding(ctx)
     rule_lc_position(ctx)
     rule_lc_equivalent_direction(ctx)
+    rule_rank_shortcut(ctx)
     from ..rules import orbits as _orb
     _orb.rule_common_node_order(ctx, [("graphiq/backends/graph/state.py", "Graph.lc_equivalent")])
     from ..rules import tableau as _tb
@@ -66,6 +67,52 @@ def run(ctx: Ctx) -> None:
     loops.rule_gf2_truth(ctx, LCE, "_is_valid_clifford")
     ctx.floor("table.gl22", 7)
     ctx.floor("vocab.gates", 6)
+
+
+def rule_rank_shortcut(ctx: Ctx) -> None:
+    """lc.rank-shortcut: is_lc_equivalent answers "not equivalent" without searching when the linear system leaves no free unknown:
+    rank >= U, U = number of unknowns = 4 * n_nodes (the width of the coefficient matrix).  The same function later asserts that the
+    solution space has U - rank dimensions; the two beliefs must agree: a threshold below U also refuses pairs whose (unique) solution
+    exists, one above U lets an empty solution space through."""
+    from .. import linear
+    repo = ctx.repo
+    m = repo.module(LCE)
+    fn = repo.anchor(LCE, "is_lc_equivalent")
+    ctx.touch(m, fn)
+    env = {}
+    for a in fn.body:
+        if isinstance(a, ast.Assign) and len(a.targets) == 1 and isinstance(a.targets[0], ast.Name):
+            env.setdefault(a.targets[0].id, a.value)
+    early = None
+    for st in fn.body:
+        if isinstance(st, ast.If) and isinstance(st.test, ast.Compare) and len(st.test.ops) == 1 and any(isinstance(r, ast.Return) for r in st.body) \
+                and any(isinstance(x, ast.Name) and x.id == "rank" for x in ast.walk(st.test)):
+            early = st
+            break
+    if early is None:
+        raise AnalysisError("is_lc_equivalent: the rank shortcut was not found")
+    l_, op, r_ = early.test.left, early.test.ops[0], early.test.comparators[0]
+    if norm(r_) == "rank":
+        l_, r_ = r_, l_
+        op = {ast.Lt: ast.Gt, ast.LtE: ast.GtE, ast.Gt: ast.Lt, ast.GtE: ast.LtE}.get(type(op), type(op))()
+    if norm(l_) != "rank":
+        raise AnalysisError(f"is_lc_equivalent: shortcut test `{short(early.test)}` is not a comparison of rank")
+    env_t = {k: v for k, v in env.items() if k != "rank" and k != "n_nodes"}
+    T = linear.clean(linear.lin(r_, env_t) or {"?": 1})
+    const = T.pop("", 0)
+    base_ok = T == {"n_nodes": 4} or (len(T) == 1 and list(T.values()) == [1] and (".shape[1]" in list(T)[0] or list(T)[0].startswith("np.shape(") and list(T)[0].endswith("[1]")))
+    if not base_ok:
+        raise AnalysisError(f"is_lc_equivalent: shortcut threshold `{short(r_)}` is neither 4 * n_nodes nor the width of the coefficient matrix")
+    good = (isinstance(op, ast.GtE) and const == 0) or (isinstance(op, ast.Gt) and const == -1) or (isinstance(op, ast.Eq) and const == 0)
+    if good:
+        ctx.ok("lc.rank-shortcut", m, early.test, what="no search iff rank >= number of unknowns")
+    else:
+        sym = {ast.GtE: ">=", ast.Gt: ">", ast.Eq: "==", ast.Lt: "<", ast.LtE: "<="}.get(type(op), "?")
+        ctx.fail("lc.rank-shortcut", m, early.test,
+                 f"is_lc_equivalent gives up when `rank {sym} {linear.show(dict(T, **({'': const} if const else {})))}`; the system has 4 * n_nodes unknowns and "
+                 f"(as the function itself asserts further down) a solution space of dimension 4 * n_nodes - rank, so the shortcut must fire exactly when "
+                 f"rank >= 4 * n_nodes: with this threshold a pair whose local Clifford is unique (dimension 1, e.g. the 5-ring orbit) is answered 'no'",
+                 func="is_lc_equivalent", construct="is_lc_equivalent: rank shortcut threshold")
 
 
 def rule_token_order(ctx: Ctx) -> None:
@@ -550,6 +597,7 @@ def rule_lc_toggle(ctx: Ctx) -> None:
 
 
 KNOCKOUTS = [
+    Knockout("rank-shortcut-one-early", LCE, sub_once("    if rank >= 4 * n_nodes:\n", "    if rank >= 4 * n_nodes - 1:\n"), "lc.rank-shortcut", "threshold"),
     Knockout("lc-equivalent-own-node-orders", "graphiq/backends/graph/state.py", sub_once("        g2 = nx.to_numpy_array(other_graph.data, nodelist=nodelist).astype(int)\n", "        g2 = nx.to_numpy_array(other_graph.data).astype(int)\n"), "node.common-order", "Graph.lc_equivalent", on_fixed_only=True),
     Knockout("local-complementation-gamma-on-the-right", LCE, sub_once("            gamma_matrix @ adj_matrix\n", "            adj_matrix @ gamma_matrix\n"), "lc.matrix-form", "bracket"),
     Knockout("local-complementation-diagonal-kept", LCE, sub_once("    for j in range(n_nodes):\n        new_adj_matrix[j, j] = 0\n", ""), "lc.matrix-form", "diagonal"),
